@@ -1,0 +1,44 @@
+//go:build verif
+
+package exec
+
+// verification hook (build tag `verif`): deterministic step counter and call-depth
+// ceiling for the evaluator. It only counts; when a budget is set and exceeded it
+// panics with a dedicated value that the embedding harness recovers.
+
+// VerifBudgetExceeded - panic value raised when a budget is exhausted
+type VerifBudgetExceeded struct {
+	Ticks int64
+	Depth int
+}
+
+// VerifTickBudget - 0 means unlimited
+var VerifTickBudget int64
+
+// VerifTicks - ticks consumed since the last reset
+var VerifTicks int64
+
+// VerifMaxDepth - 0 means unlimited
+var VerifMaxDepth int
+
+// VerifDepth - current nesting of exec blocks
+var VerifDepth int
+
+func verifTick() {
+	VerifTicks++
+	if VerifTickBudget > 0 && VerifTicks > VerifTickBudget {
+		panic(VerifBudgetExceeded{Ticks: VerifTicks, Depth: VerifDepth})
+	}
+}
+
+func verifEnterCall() func() {
+	VerifDepth++
+	if VerifMaxDepth > 0 && VerifDepth > VerifMaxDepth {
+		panic(VerifBudgetExceeded{Ticks: VerifTicks, Depth: VerifDepth})
+	}
+	return verifLeaveCall
+}
+
+func verifLeaveCall() {
+	VerifDepth--
+}
